@@ -386,6 +386,10 @@ func cmdCheck(args []string) {
 			}
 			for _, o := range r.Obls {
 				present[o.Name] = true
+				// a kind of obligation added to the engine after the claims were written
+				if genClaims && incremental && (o.Kind == "call.reach" || (o.Kind == "cover" && strings.Contains(o.Name, "#callsite."))) && !claims.names[o.Name] {
+					dirtyFn[r.Name()] = true
+				}
 			}
 			if !hasClaim[r.Name()] || forceDirty[r.Name()] || (dirtyRe != nil && dirtyRe.MatchString(r.Name())) {
 				dirtyFn[r.Name()] = true
@@ -645,8 +649,20 @@ func writeClaims(prop string, results []*FuncResult) {
 			fmt.Printf("not claimed (whole function): %s -- loop-head assumption %s is %s\n", r.Name(), unjustified, "not re-established")
 			continue
 		}
+		// an obligation whose own cover (antecedent / call site reachable) is proved unsatisfiable
+		// holds vacuously: never claimed
+		deadCover := map[string]bool{}
+		for _, o := range r.Obls {
+			if strings.HasSuffix(o.Name, ".cover") && o.Result == "vacuous" {
+				deadCover[strings.TrimSuffix(o.Name, ".cover")] = true
+			}
+		}
 		for _, o := range r.Obls {
 			if o.Result == "" || strings.Contains(o.Name, "@") {
+				continue
+			}
+			if deadCover[o.Name] {
+				fmt.Printf("not claimed: vacuous (its cover is unsatisfiable) %s\n", o.Name)
 				continue
 			}
 			total++
